@@ -32,6 +32,8 @@ checks = {
  "C15": ("G", "exploration", "A real node before handshake / during verification / ready receives 1-4 tape-generated hostile byte strings (noise, corrupt checksum/length/count/varint, truncation, extended lengths 2^48..2^64-1, every class of bits, hostile tx encodings, flipped bytes), then the peer closes. The run executes in a worker process whose death is attributed to the run it announced, re-run alone, minimised at message level and replayed from the recorded bytes. Run must return within 5 simulated minutes, the header repository must be intact and a second well-behaved connection must verify and answer a ping. Production repository configuration.", NOTE_G + " Declared lengths are either small or >= 2^48 so the outcome never depends on this machine's memory. Three allocation sites inside the dependency pkg/wire are known findings (KF19-KF21) and are excluded from generation; their witnesses run on every check.", G + "; process-level crash observation with per-run attribution"),
  "C04": ("G", "exploration", "A real BlockDownloader (Run and HandleBlock on their own goroutines in a synctest bubble) receives blocks of 1-125 (thorough: to 3200) transactions with a tape-chosen relevant subset and one corruption (dropped/added/duplicated-last/swapped/altered tx, announced count +-1, stream cut at k, different header or requested hash, processor/store error at call k) and optionally Cancel, Stop or interrupt at a tape-chosen step of the hand-over. Recorded calls are checked against a reference: confirmations only if header hash, count and an independently computed merkle root all match; coinbase first, exactly the relevant txids once each in block order, every proof verifies and equals the reference merkle path, block txids recorded last; Run nil iff all of it happened.", NOTE_G, G),
  "C16": ("G", "exploration", "A real BlockManager.Run with real BlockDownloaders serves 1-3 queued requests from simulated sources. At every quiescent point the tape picks one action at call granularity: a source starts its handler, hands over the next transaction, ends or cuts the stream, drops before/after start, serves a wrong block; the requester aborts (optionally in the same instant as shutdown); shutdown; or the clock advances through the start/download/cancel-poll/request-delay timers. Then a fault-free epilogue. Checked: exactly one terminal signal per request, complete only after a successful download of that hash, concurrent downloads bounded, registry empties, Run returns, and at the end of the bubble no goroutine of the system is left blocked.", NOTE_G + " A select with several ready cases is resolved by the Go runtime, not by the tape; failures are confirmed 3/3 in fresh processes before they are reported.", G + "; end-of-bubble blocked-goroutine detection"),
+ "C05": ("G", "exploration", "The real block synchroniser of NodeManager (TriggerBlockSynchronize / synchronizeBlocks, started via the verif hook that marks the startup delay complete) runs over a real headers.Repository, a real BlockManager.Run and real BlockDownloaders in a synctest bubble; sources and the processor/block store are simulated. Tape-chosen start height, chain length, pre-processed prefix, concurrency and delay; at every quiescent point: a source serves (fully / wrong block / cut / drop), time advances, a new block arrives, a heavier fork reorganises 1-3 blocks (possibly the one being requested), or no node is available. Checked on the recorded requests and processing: never below the start height, never an already processed block, processing ascending and contiguous, each block once (concurrency 1); then a fault-free epilogue must process every best-chain block above the last processed one within 30 simulated minutes per block.", NOTE_G + " A BlockManager that gives up ends the run (the program exits there).", G),
+ "C06": ("G", "exploration", "Two worlds in a synctest bubble. Manager world: real TxManager + Run consumer; 2-5 peers issue tape-chosen AddTxID/AddTx/GetTxRequests calls over 1-6 txids (bucket collisions forced) at held or advanced fake time (including timeout-1ns, timeout, timeout+1ms); every answer is compared with a sequential reference, grants are checked (<=1 per txid per timeout window, none after delivery) and processor/saver counts must be exactly one per delivered (relevant) txid after every step. End-to-end world: 2-4 verified real BitcoinNodes share the manager; scripted peers send inv (same tx from two peers in one instant), answer or ignore getdata (classic/extended tx), deliver unsolicited; the retry poll runs as time advances; getdata seen by peers are the grants.", NOTE_G + " Calls of different peers are issued one at a time by the driver (call-granularity interleavings, including several calls at one fake instant); interleavings inside one call are not controlled by this engine (see DESIGN.md section 8).", G + "; step-by-step refinement against a sequential reference"),
 }
 NA = {}
 ALL = ["C%02d" % i for i in range(1, 21)]
